@@ -13,6 +13,7 @@ from mc.common import replay_via
 
 ID = 'C17'
 LEVEL = 'exploration'
+PRELOAD = ['frame.geometry.geometry', 'frame.netlist.netlist', 'frame.die.die', 'frame.allocation.allocation', 'ruamel.yaml', 'mc.common', 'tools.force.fruchterman_reingold', 'mpmath']
 RULE = ("radius pairs (r1,r2) from {1,0.1,0.3,1/3,2.5,7,1e-3,1e3,123.456} (all 81 ordered pairs) x base distance in "
         "{r1+r2, |r1-r2|, 0, (r1+r2)/2, r1, r2, sqrt(|r1^2-r2^2|)} x ulp offsets -J..J x 4 directions x 2 origins, plus relative neighbourhoods base*(1+k*10^-e), e=4..7, |k|<=4, all evaluated in one process per radius pair (so a stale cache or coarse rounding shows); a case is "
         "non-trivial when the exact configuration is a proper lens or within 1e-9*max(r) of a tangency; cases are distinct inputs")
